@@ -233,6 +233,10 @@ func (vt *Model) cnl(ps int) {
 	if ps == 0 {
 		ps = 1
 	}
+	if ps > vt.height() {
+		// once every line has scrolled out nothing changes anymore
+		ps = vt.height()
+	}
 	for i := 0; i < ps; i += 1 {
 		vt.nel()
 	}
@@ -244,6 +248,10 @@ func (vt *Model) cpl(ps int) {
 	vt.lastCol = false
 	if ps == 0 {
 		ps = 1
+	}
+	if ps > vt.height() {
+		// once every line has scrolled out nothing changes anymore
+		ps = vt.height()
 	}
 	for i := 0; i < ps; i += 1 {
 		vt.ri()
